@@ -48,7 +48,7 @@ func genCase(t *rapid.T) Case {
 		c.Env.OutStall = append(c.Env.OutStall, rapid.IntRange(0, 4).Draw(t, "stall"))
 	}
 	c.Ticks = rapid.IntRange(60, 400).Draw(t, "ticks")
-	if rapid.IntRange(0, 2).Draw(t, "delays") == 0 {
+	if rapid.Bool().Draw(t, "delays") {
 		// "regardless of how many clock cycles either takes": the simulator's per-opcode delay model
 		// stretches instructions; the delivered streams may not change
 		c.Delays = map[string]int{}
